@@ -21,7 +21,7 @@ Inductive leaf3 : string -> list value -> Prop :=
 Lemma leaf3_holds t ps : leaf3 t ps -> holds t (List.length ps).
 Proof. intros [v| |c Hc]; [split; reflexivity|split; reflexivity|apply holds_column; exact Hc]. Qed.
 
-Lemma leaf_render3 e : ParserShape.is_leaf e = true ->
+Lemma leaf_render3 e : Shape.is_leaf e = true ->
   exists t ps er, render_param o2 e = Ret (t, ps, er) /\ (er = None -> leaf3 t ps /\
      (is_pattern e = true -> (exists s, ps = [VStr s]) \/ (ps = [] /\ t = "'*'"%string)) /\
      (match e_left e with VCol _ => ps = [] /\ t <> "'*'"%string | _ => True end)).
@@ -226,7 +226,7 @@ Lemma serp_list_inv : forall l acc ps, forallb is_plain l = true ->
 Proof.
   induction l as [|x xs IH]; intros acc ps H Hacc; cbn [serp_list]; [eexists; split; [reflexivity|exact Hacc]|].
   cbn [forallb] in H. apply andb_true_iff in H. destruct H as [Hx Hxs].
-  assert (Hl : ParserShape.is_leaf x = true) by (destruct x as [l op r ? ?]; destruct op, l, r; cbn in Hx |- *; try discriminate; reflexivity).
+  assert (Hl : Shape.is_leaf x = true) by (destruct x as [l op r ? ?]; destruct op, l, r; cbn in Hx |- *; try discriminate; reflexivity).
   destruct (leaf_render3 x Hl) as [t [p [er [E HL]]]]. rewrite E. cbn [bind].
   destruct er; [eexists; split; [reflexivity|exact I]|].
   destruct (HL eq_refl) as [L3 _]. apply IH; [exact Hxs|].
@@ -274,7 +274,7 @@ Proof.
     apply rp_node_inv_simple; try discriminate; auto; [exact (leaf3_holds _ _ L3)|]. intros [H|[H|[H|H]]]; discriminate.
   - (* Like *) destruct r as [| | | | | | c | |]; try discriminate. cbn in Hs. apply andb_true_iff in W. destruct W as [Wa Wc].
     rewrite render_param_eq, !ser_param_exp. leaf_step3 Wa. destruct HL as [L3 _].
-    assert (Lc : ParserShape.is_leaf c = true) by (destruct c as [cl co cr ? ?]; destruct co, cl, cr; cbn in Wc |- *; try discriminate; reflexivity).
+    assert (Lc : Shape.is_leaf c = true) by (destruct c as [cl co cr ? ?]; destruct co, cl, cr; cbn in Wc |- *; try discriminate; reflexivity).
     destruct (leaf_render3 _ Lc) as [rt [rp [[er|] [Ec HLc]]]]; rewrite Ec; cbn [bind]; [eexists; split; [reflexivity|exact I]|].
     destruct (HLc eq_refl) as [L3c [PO _]].
     apply rp_node_inv_like; [exact (leaf3_holds _ _ L3)|].
